@@ -30,31 +30,6 @@ Proof.
     exfalso. eapply Qlt_not_le; [exact H|exact E].
 Qed.
 
-Lemma lex_total a : forall b, lex_leb a b = true \/ lex_leb b a = true.
-Proof.
-  induction a as [|x a IH]; intros [|y b]; cbn; auto.
-  destruct (Z.ltb_spec x y), (Z.ltb_spec y x); auto; lia.
-Qed.
-Lemma lex_trans a : forall b c, lex_leb a b = true -> lex_leb b c = true -> lex_leb a c = true.
-Proof.
-  induction a as [|x a IH]; intros [|y b] [|z c]; cbn; auto; try discriminate.
-  destruct (Z.ltb_spec x y), (Z.ltb_spec y x), (Z.ltb_spec y z), (Z.ltb_spec z y),
-           (Z.ltb_spec x z), (Z.ltb_spec z x); auto; try discriminate; try lia.
-  apply IH.
-Qed.
-Lemma lex_antisym a : forall b, lex_leb a b = true -> lex_leb b a = true -> a = b.
-Proof.
-  induction a as [|x a IH]; intros [|y b]; cbn; auto; try discriminate.
-  destruct (Z.ltb_spec x y), (Z.ltb_spec y x); try discriminate; try lia.
-  intros H1 H2. f_equal; [lia|apply IH; assumption].
-Qed.
-Lemma eqk_lex a b : eqk lex_leb a b = true <-> a = b.
-Proof.
-  unfold eqk. rewrite andb_true_iff. split.
-  - intros [H1 H2]. apply lex_antisym; assumption.
-  - intros ->. destruct (lex_total b b); tauto.
-Qed.
-
 (* ------------------------------------------------------------------ sums of ratios *)
 Lemma qdiv_add a b n : (qdiv (a + b) n == qdiv a n + qdiv b n)%Q.
 Proof. unfold qdiv, Qdiv. rewrite inject_Z_plus. ring. Qed.
